@@ -605,6 +605,20 @@ package yang
 //@   loop 1
 //@     invariant forall j int :: 0 <= j && j < _k ==> mod.Import[j].Prefix.Name != prefix
 //
+// errorSort (C05: error lists come back ordered, duplicates removed): after the
+// sort every error is either kept or deeply equal to the one kept last -- none is
+// lost otherwise -- and what has been kept is not touched again; a list of one
+// comes back as it is. (That sort.Sort orders by sortedErrors.Less, whose order
+// is proved total on distinct keys, is the assumed part.)
+//@ func errorSort props C05
+//@   only ensures loop2/
+//@   ensures[a-list-of-at-most-one-error-comes-back-as-it-is] len(errors) <= 1 ==> len(result) == len(errors)
+//@   ensures[some-error-stays-and-none-is-added] len(result) <= len(errors) && (len(errors) > 0 ==> len(result) > 0)
+//@   loop 2
+//@     invariant 0 <= i && i <= _k && (_k > 0 ==> i > 0) && len(errors) == len(elist)
+//@     body_ensures[a-sorted-error-is-kept-or-equals-the-one-kept-last] (i == old(i) + 1 && errors[old(i)] == elist[old(_k)].err) || (i == old(i) && i > 0 && deepEq(elist[old(_k)].err, errors[i-1]))
+//@     body_ensures[what-is-kept-stays] forall m int :: 0 <= m && m < old(i) ==> errors[m] == old(errors[m])
+//
 // The keyword of an extension is prefix:name with text on both sides of exactly
 // one colon; anything else that is not a keyword of the statement is refused
 // by build (C03: a keyword that is unknown in its context is always rejected).
